@@ -115,19 +115,27 @@ def count_obligations(files):
     return n, names
 
 
+def prop_files(prop):
+    """props/Cnn.v plus any props/Cnn<letter>.v (theorem files added later for the same property)."""
+    d = os.path.join(COQ, "props")
+    return sorted(f[:-2] for f in os.listdir(d) if re.fullmatch(re.escape(prop) + r"[a-z]?\.v", f))
+
+
 def build(prop):
     """Rebuild; returns dict(translator_ok, model_ok, proof_ok, log)."""
-    target = "props/%s.vo" % prop
+    target = " ".join("props/%s.vo" % f for f in prop_files(prop))
     rc, out = sh("./build.sh model/Driver.vo %s" % target, timeout=2400)
     info = {"log": out[-6000:], "rc": rc}
     info["translator_ok"] = "BUILD: translator failed" not in out
     info["model_ok"] = (os.path.exists(os.path.join(VERIF, "ocaml", "driver")) and "BUILD: model did not compile" not in out
                         and "BUILD: extraction failed" not in out and "BUILD: driver build failed" not in out
                         and info["translator_ok"])
-    vo = os.path.join(COQ, target)
-    src = os.path.join(COQ, "props", prop + ".v")
-    info["proof_ok"] = (info["translator_ok"] and rc == 0 and os.path.exists(vo)
-                        and os.path.getmtime(vo) >= os.path.getmtime(src))
+    ok = info["translator_ok"] and rc == 0
+    for f in prop_files(prop):
+        vo = os.path.join(COQ, "props", f + ".vo")
+        src = os.path.join(COQ, "props", f + ".v")
+        ok = ok and os.path.exists(vo) and os.path.getmtime(vo) >= os.path.getmtime(src)
+    info["proof_ok"] = ok
     failed = re.findall(r"File \"\./([^\"]+)\", line (\d+)", out)
     info["failed_files"] = sorted(set(f for f, _ in failed))
     errs = re.findall(r"(File \"\./[^\"]+\", line \d+[^\n]*\n(?:[^\n]*\n){0,6})", out)
@@ -136,9 +144,13 @@ def build(prop):
 
 
 def assumptions(prop):
-    """Recompile props/<P>.v alone and collect the Print Assumptions output."""
-    rc, out = sh("coqc -Q gen Orq -Q model Orq -Q facts Orq -Q proofs Orq -Q props Orq props/%s.v" % prop,
-                 cwd=COQ, timeout=600)
+    """Recompile the property's theorem files alone and collect the Print Assumptions output."""
+    rc, out = 0, ""
+    for f in prop_files(prop):
+        rc1, out1 = sh("coqc -Q gen Orq -Q model Orq -Q facts Orq -Q proofs Orq -Q props Orq props/%s.v" % f,
+                       cwd=COQ, timeout=600)
+        rc = rc or rc1
+        out += out1
     closed = len(re.findall(r"Closed under the global context", out))
     axioms = []
     for m in re.finditer(r"Axioms:\n((?:.+\n?)+?)(?:\n|$)", out):
@@ -179,10 +191,18 @@ def main(argv):
     t0 = time.time()
     b = build(prop)
     hyg = hygiene()
-    files = cone(prop + ".v") if b["translator_ok"] else []
+    files = sorted(set(x for f in prop_files(prop) for x in cone(f + ".v"))) if b["translator_ok"] else []
     nobl, names = count_obligations(files)
     asm = assumptions(prop) if b["proof_ok"] else {"rc": 1, "closed": 0, "axioms": [], "raw": ""}
     proof_ok = b["proof_ok"] and not hyg and asm["rc"] == 0
+    chk = None
+    if tier == "thorough" and proof_ok:
+        # independent re-check of the compiled files of the cone and their axioms
+        rc_chk, out_chk = sh("timeout 1500 coqchk -silent -o -Q gen Orq -Q model Orq -Q facts Orq -Q proofs Orq -Q props Orq "
+                             "%s 2>&1 | tail -14" % " ".join("Orq." + f for f in prop_files(prop)), cwd=COQ, timeout=1600)
+        chk = " ".join(out_chk.split())
+        if "Axioms: <none>" not in chk:
+            proof_ok = False
     ctx = {"prop": prop, "tier": tier, "seed": seed, "model_ok": b["model_ok"], "proof_ok": proof_ok,
            "known": load_known(), "t0": t0}
     try:
@@ -202,6 +222,8 @@ def main(argv):
                       % (prop, b["failed_files"], " | ".join(b["first_errors"])[:1500]))
     if hyg:
         broken.append("hygiene: " + "; ".join(hyg))
+    if chk is not None and "Axioms: <none>" not in chk:
+        broken.append("coqchk -o does not report 'Axioms: <none>': " + chk[-400:])
     if b["proof_ok"] and asm["rc"] != 0:
         broken.append("props/%s.v does not recompile standalone" % prop)
     if not b["model_ok"] and b["translator_ok"]:
@@ -247,6 +269,7 @@ def main(argv):
         "model_vm_compute_crosschecked": int(res.get("model_vm_compute_crosschecked", 0)),
         "known_findings_reconfirmed": known_lines,
         "proof_status": "checked" if proof_ok else "BROKEN: " + "; ".join(broken)[:2000],
+        "coqchk": chk or "run in the thorough tier only (coqchk -o on the property's module and everything it depends on)",
     }
     if not proof_ok:
         # the proof-level keys are only claimed when the proofs were actually checked in this run
